@@ -1,6 +1,6 @@
 """C16 — importing works in either order and Beautiful Soup can always select.
 
-E4 (program enumeration): every sequence of <= 2 (thorough 3) import statements over a 13-statement menu, each sequence in a
+E4 (program enumeration): every sequence of <= 2 (thorough 3) import statements over a 20-statement menu, each sequence in a
 fresh interpreter (`python -W always`, empty working directory, PYTHONPATH = the tree under test), followed by a fixed
 probe: BeautifulSoup(markup, parser).select(sel) and soupsieve.select(sel, soup) for 4 parsers x 16 selectors on markup
 holding comments, CDATA, a doctype, forms, lang/dir and namespaces.
@@ -21,6 +21,8 @@ MENU = [
     'import bs4', 'from bs4 import BeautifulSoup', 'import bs4.element', 'import bs4.css', 'import soupsieve', 'from soupsieve import compile',
     'import soupsieve.css_match', 'import soupsieve.css_parser', 'import soupsieve.css_types', 'import soupsieve.util', 'import soupsieve.pretty',
     'import soupsieve.__meta__', 'from soupsieve import *',
+    'from soupsieve.css_types import *', 'from soupsieve.css_match import *', 'from soupsieve.css_parser import *', 'from soupsieve.util import *',
+    'from soupsieve.pretty import *', 'from soupsieve.__meta__ import *', 'from bs4 import *',
 ]
 
 WORLD = r'''import sys, json, os, warnings as _w, threading as _t, gc as _gc, locale as _loc, logging as _lg, signal as _sg
